@@ -114,8 +114,10 @@ def gen_spec(r: apigen.Rng, idx=0):
         if m["nested"]:
             fulls[fidx].append(f"{PKG}.{name}.Inner")
     def typeref(allow_empty):
-        kinds = ["local"] * 6 + ["wkt"] * 2 + (["dep"] * 2 if dep else []) + (["empty"] * 3 if allow_empty else ["empty"])
+        kinds = ["local"] * 6 + ["wkt"] * 2 + ["iam"] + (["dep"] * 2 if dep else []) + (["empty"] * 3 if allow_empty else ["empty"])
         k = r.pick(kinds)
+        if k == "iam":
+            return {"kind": "iam", "full": "google.iam.v1." + r.pick(["GetIamPolicyRequest", "Policy", "TestIamPermissionsRequest", "SetIamPolicyRequest"])}
         if k == "local":
             return {"kind": "local", "full": r.pick(fulls[0] + fulls[1])}
         if k == "wkt":
@@ -131,7 +133,9 @@ def gen_spec(r: apigen.Rng, idx=0):
     methods = []
     for k, name in enumerate(chosen):
         cs, ss = (r.maybe(0.3), r.maybe(0.35))
-        methods.append({"name": name, "input": typeref(False), "output": typeref(True), "cs": cs, "ss": ss})
+        inp = typeref(False)
+        outp = dict(inp) if (r.maybe(0.15) and inp["full"] != "google.protobuf.Empty") else typeref(True)   # same message both ways
+        methods.append({"name": name, "input": inp, "output": outp, "cs": cs, "ss": ss})
     # every arity and a void method at least once per API
     want = [(False, False), (False, True), (True, False), (True, True)]
     for k, (cs, ss) in enumerate(want):
@@ -139,7 +143,15 @@ def gen_spec(r: apigen.Rng, idx=0):
             methods[k % len(methods)]["cs"], methods[k % len(methods)]["ss"] = cs, ss
     if not any(m["output"]["full"] == "google.protobuf.Empty" for m in methods):
         methods[0]["output"] = {"kind": "wkt", "full": "google.protobuf.Empty"}
-    return {"stem": stem, "stem2": stem2, "dep": dep, "messages": msgs, "methods": methods, "options": ""}
+    spec = {"stem": stem, "stem2": stem2, "dep": dep, "messages": msgs, "methods": methods, "options": ""}
+    if r.maybe(0.4):
+        # a second service of the same API (its clients may share a channel with the first one's); some RPC names coincide
+        m2 = []
+        for name in [methods[0]["name"], methods[-1]["name"]][:r.randint(1, 2)] + [r.pick(["Archive", "Restore", "Import", "GrpcChannel"])]:
+            if name not in [x["name"] for x in m2]:
+                m2.append({"name": name, "input": typeref(False), "output": typeref(True), "cs": r.maybe(0.2), "ss": r.maybe(0.25)})
+        spec["service2"] = {"name": r.pick(["Archive", "LibraryAdmin", "Kind"]), "methods": m2}
+    return spec
 
 
 # ------------------------------------------------------------------ spec -> descriptors
@@ -186,9 +198,14 @@ def build_files(spec):
         add_fields(mm, m["fields"])
         for nst in m.get("nested", []):
             add_fields(mm.nested(nst["name"]), nst["fields"])
+    f.dep("google/iam/v1/iam_policy.proto", "google/iam/v1/policy.proto")
     svc = f.service(spec.get("service", SERVICE))
     for me in spec["methods"]:
         svc.method(me["name"], "." + me["input"]["full"], "." + me["output"]["full"], cs=me["cs"], ss=me["ss"])
+    if spec.get("service2"):
+        svc2 = f.service(spec["service2"]["name"])
+        for me in spec["service2"]["methods"]:
+            svc2.method(me["name"], "." + me["input"]["full"], "." + me["output"]["full"], cs=me["cs"], ss=me["ss"])
     targets.append(f)
     return deps + targets, targets, deps
 
@@ -221,6 +238,9 @@ def addr_of(spec, ref, alias=""):
     if full.startswith("google.protobuf."):
         n = full.rsplit(".", 1)[1]
         return {"package": ["google", "protobuf"], "module": WKT_MODULE[n], "parent": [], "name": n, "alias": alias}
+    if full.startswith("google.iam.v1."):
+        n = full.rsplit(".", 1)[1]
+        return {"package": ["google", "iam", "v1"], "module": "policy" if n == "Policy" else "iam_policy", "parent": [], "name": n, "alias": alias}
     dep_pkg = spec.get("dep_pkg", DEP_PKG)
     if ref["kind"] == "dep":
         return {"package": dep_pkg.split("."), "module": "common", "parent": [], "name": full[len(dep_pkg) + 1:], "alias": alias}
@@ -304,6 +324,57 @@ def observed_ret(codec, me, ok):
 # ------------------------------------------------------------------ one API
 
 
+def tagged_literal(codec, full, val, generated_is_pb2):
+    """The dict a caller would write by hand for valuation `val` of message `full`: proto field names -> native python
+    values, built from the DYNAMIC message of the input descriptors (never through the generated classes, so a wrongly
+    bound field cannot hide among unknown fields).  Tags carry what JSON cannot: bytes, non-string map keys; for a
+    protobuf (pb2) request class map values of message type must be instances."""
+    from google.protobuf import json_format
+    m = codec.cls(full)()
+    json_format.ParseDict(val, m, descriptor_pool=codec.pool)
+
+    def pyname(desc):
+        mod = desc.file.name[:-len(".proto")].replace("/", ".") + "_pb2"
+        return f"{mod}:{desc.full_name[len(desc.file.package) + 1:]}"
+
+    def val_of(fd, v, in_map=False):
+        if fd.message_type is not None:
+            if in_map and generated_is_pb2:
+                return {"@pb": pyname(fd.message_type), "b64": base64.b64encode(v.SerializeToString()).decode()}
+            return conv(v)
+        if fd.type == fd.TYPE_BYTES:
+            return {"@b": base64.b64encode(v).decode()}
+        return v
+
+    def conv(msg):
+        out = {}
+        for fd, v in msg.ListFields():
+            if fd.message_type is not None and fd.message_type.GetOptions().map_entry:
+                vf = fd.message_type.fields_by_name["value"]
+                out[fd.name] = {"@map": [[k, val_of(vf, x, True)] for k, x in v.items()]}
+            elif fd.label == fd.LABEL_REPEATED:
+                out[fd.name] = [val_of(fd, x) for x in v]
+            else:
+                out[fd.name] = val_of(fd, v)
+        return out
+    return conv(m)
+
+
+def enlarge(r, codec, full, val):
+    """a very large message: one top-level string/bytes field of ~300 kB (below gRPC's 4 MB default limit)"""
+    if not isinstance(val, dict):
+        return val
+    desc = codec.pool.FindMessageTypeByName(full)
+    cands = [fd for fd in desc.fields if fd.type in (fd.TYPE_STRING, fd.TYPE_BYTES) and fd.label != fd.LABEL_REPEATED
+             and fd.containing_oneof is None]
+    if not cands:
+        return val
+    fd = r.pick(cands)
+    big = dict(val)
+    big[fd.name] = ("x" * 300_000) if fd.type == fd.TYPE_STRING else base64.b64encode(b"\x01\x02\x03" * 100_000).decode()
+    return codec.normal(full, big)
+
+
 def plan_calls(ctx, r, spec, codec, svc_obj, per_method):
     """the op script: for every method, the request given as instance / dict / omitted (unary request) or as an
     iterator (client streaming), with random request and reply valuations"""
@@ -316,32 +387,51 @@ def plan_calls(ctx, r, spec, codec, svc_obj, per_method):
         # the reply script is installed for every RPC whose client method has the same name (normally: this one)
         paths = [f"/{PKG}.{spec.get('service', SERVICE)}/{m2['name']}" for m2 in spec["methods"]
                  if gu.to_snake_case(svc_obj.methods[m2["name"]].client_method_name) == attr]
+        pb2_cls = not m.input.ident.is_proto_plus_type      # plumbing: which constructor the literal is written for
         for rep in range(per_method):
-            nrep = r.randint(0, 3) if me["ss"] else 1
+            nrep = (r.pick([0, 1, 1, 2, 3, 25]) if me["ss"] else 1)          # zero / one / many
             replies = [rpc.rand_msg(r, codec, out_full) for _ in range(nrep)]
             if out_full == "google.protobuf.Empty":
                 replies = [{} for _ in replies]
+            elif replies and r.maybe(0.04):
+                replies[-1] = enlarge(r, codec, out_full, replies[-1])
+                ctx.count("shape", "big-reply")
+            tagno = len(plans)
             base = {"method": attr, "py_request": rpc.py_type(m.input), "consume": "auto", "probe_bool": True,
-                    "call_kwargs": {"timeout": 6.0},       # a deadline, so that a mis-wired stub fails instead of hanging
                     "script": {pth: [{"replies": [codec.encode_b64(out_full, x) for x in replies]}] for pth in paths}}
+
+            def kwargs(n):
+                # a deadline, so that a mis-wired stub fails instead of hanging; caller metadata must pass through
+                return {"timeout": 6.0, "metadata": [["x-verif-call", f"c{n}"]]}
             if me["cs"]:
-                reqs = [rpc.rand_msg(r, codec, in_full) for _ in range(r.randint(0, 3))]
-                call = dict(base, mode="request-none", stream_requests=[codec.encode_b64(in_full, x) for x in reqs])
-                plans.append({"mi": mi, "mode": "iter", "requests": [codec.normal(in_full, x) for x in reqs], "replies": replies, "call": call})
+                reqs = [rpc.rand_msg(r, codec, in_full) for _ in range(r.pick([0, 1, 1, 2, 3, 25]))]
+                if reqs and r.maybe(0.04):
+                    reqs[0] = enlarge(r, codec, in_full, reqs[0])
+                    ctx.count("shape", "big-request")
+                call = dict(base, mode="request-none", stream_requests=[codec.encode_b64(in_full, x) for x in reqs],
+                            call_kwargs=kwargs(tagno), positional=r.maybe(0.3))
+                plans.append({"mi": mi, "mode": "iter", "requests": [codec.normal(in_full, x) for x in reqs], "replies": replies,
+                              "call": call, "tag": f"c{tagno}"})
             else:
                 val = rpc.rand_msg(r, codec, in_full, p_set=r.pick([0.3, 0.6, 0.9]))
                 forced = spec.get("force_request")
                 if forced is not None and forced["method"] == me["name"]:
                     val = codec.normal(in_full, forced["value"])
+                elif r.maybe(0.04):
+                    val = enlarge(r, codec, in_full, val)
+                    ctx.count("shape", "big-request")
                 b = codec.encode_b64(in_full, val)
-                for mode, hmode in (("inst", "request-instance"), ("dict", "request-native-dict"), ("omitted", "request-none")):
+                for mode, hmode in (("inst", "request-instance"), ("dict", "request-tagged-literal"), ("omitted", "request-none")):
                     want = codec.decode(in_full, b"") if mode == "omitted" else codec.normal(in_full, val)
-                    plans.append({"mi": mi, "mode": mode, "requests": [want], "replies": replies,
-                                  "call": dict(base, mode=hmode, request_b64=b)})
+                    n = len(plans)
+                    call = dict(base, mode=hmode, request_b64=b, call_kwargs=kwargs(n), positional=(mode != "omitted" and r.maybe(0.3)))
+                    if mode == "dict":
+                        call["request_literal"] = tagged_literal(codec, in_full, val, pb2_cls)
+                    plans.append({"mi": mi, "mode": mode, "requests": [want], "replies": replies, "call": call, "tag": f"c{n}"})
     return plans
 
 
-def plan_multi(r, spec, codec, svc_obj):
+def plan_multi(r, spec, codec, svc_obj, spec2=None, svc2_obj=None, loc2=None):
     """Two clients of the same service in one interpreter, each bound to ITS OWN loopback server (a@A, b@B),
     calls interleaved in random order; then `a` is closed, a new client c@A is created and c and b call again.
     For every call the addressed server is scripted with the reply, the other server with a DIFFERENT decoy."""
@@ -359,10 +449,11 @@ def plan_multi(r, spec, codec, svc_obj):
         for nm in first:
             steps.append({"step": {"do": "create", "name": nm, "server": home[nm]}})
 
-        def call_step(cl, mi, me):
-            m = svc_obj.methods[me["name"]]
+        def call_step(cl, mi, me, sx=None, svx=None):
+            sx, svx = sx or spec, svx or svc_obj
+            m = svx.methods[me["name"]]
             in_full, out_full = me["input"]["full"], me["output"]["full"]
-            path = f"/{PKG}.{spec.get('service', SERVICE)}/{me['name']}"
+            path = f"/{PKG}.{sx.get('service', SERVICE)}/{me['name']}"
             nrep = r.randint(1, 3) if me["ss"] else 1
             void = out_full == "google.protobuf.Empty"
             replies = [({} if void else rpc.rand_msg(r, codec, out_full, p_set=0.9)) for _ in range(nrep)]
@@ -380,14 +471,28 @@ def plan_multi(r, spec, codec, svc_obj):
                 val = rpc.rand_msg(r, codec, in_full, p_set=0.9)
                 step.update(mode="request-instance", request_b64=codec.encode_b64(in_full, val))
                 want = [codec.normal(in_full, val)]
-            return {"step": step, "mi": mi, "client": cl, "target": target, "requests": want, "replies": replies, "path": path,
-                    "phase": "after-close" if "c" in home and cl == "c" else "interleaved"}
+            return {"step": step, "mi": mi, "me": me, "client": cl, "target": target, "requests": want, "replies": replies, "path": path,
+                    "phase": "after-close" if cl == "c" else "interleaved"}
         for mi, me in usable:
             order = ["a", "b"] if r.maybe() else ["b", "a"]
             if r.maybe(0.3):
                 order.append(r.pick(["a", "b"]))
             for cl in order:
                 steps.append(call_step(cl, mi, me))
+        if spec2 is not None:
+            # a client of the API's OTHER service on client a's channel: calls interleaved with a's and b's
+            home["s"] = "A"
+            steps.append({"step": {"do": "create", "name": "s", "server": "A", "channel_of": "a",
+                                   "client_cls": loc2["async_client" if asy else "client"],
+                                   "transport_cls": loc2["grpc_asyncio" if asy else "grpc"]}})
+            us2 = [(mi, me) for mi, me in enumerate(spec2["methods"])
+                   if not (asy and me["output"]["full"] == "google.protobuf.Empty" and (me["cs"] or me["ss"]))]
+            for mi, me in us2[:3]:
+                st = call_step("s", mi, me, spec2, svc2_obj)
+                st["phase"] = "shared-channel"
+                steps.append(st)
+                if usable:
+                    steps.append(call_step(r.pick(["a", "b"]), *usable[0]))
         steps.append({"step": {"do": "close", "name": "a"}})
         steps.append({"step": {"do": "create", "name": "c", "server": "A"}})
         for mi, me in usable[:2]:
@@ -395,6 +500,12 @@ def plan_multi(r, spec, codec, svc_obj):
                 st = call_step(cl, mi, me)
                 st["phase"] = "after-close"
                 steps.append(st)
+        if usable:
+            # `with client as c: c.method(...)`: an ordinary call; leaving the block closes c's transport only
+            st = call_step("c", *usable[0]); st["phase"] = "context-manager"; st["step"]["with_ctx"] = True
+            steps.append(st)
+            st = call_step("b", *usable[0]); st["phase"] = "after-close"
+            steps.append(st)
         out[asy] = steps
     return out
 
@@ -424,9 +535,9 @@ def judge_multi(ctx, spec, codec, mplan, mout, fail, payload):
                 continue
             if st["client"] in missing:
                 continue
-            me = spec["methods"][st["mi"]]
+            me = st["me"]
             in_full = me["input"]["full"]
-            tag = "client-after-close" if st["phase"] == "after-close" else "multi-client"
+            tag = {"after-close": "client-after-close", "shared-channel": "shared-channel", "context-manager": "context-manager"}.get(st["phase"], "multi-client")
             extra = {"method": me["name"], "flavor": fl, "client": st["client"], "own_server": st["target"], "phase": st["phase"]}
             ctx.case({"multi_client": True, "method": me["name"], "flavor": fl, "client": st["client"], "phase": st["phase"]},
                      distinct_key=["multi", canon(me), fl, st["client"], st["phase"], canon(st["requests"]), canon(st["replies"])])
@@ -443,6 +554,15 @@ def judge_multi(ctx, spec, codec, mplan, mout, fail, payload):
                         fail(f"{tag}:payload", f"{fl} client {st['client']}@{sn} {me['name']}: server decoded {[codec.decode(in_full, b) for b in recs[0]['requests']]}, caller sent {st['requests']}", me, asy, extra=extra)
                 elif recs:
                     fail(f"{tag}:call-on-other-channel", f"{fl} client {st['client']}@{st['target']} {me['name']}: server {sn} (another client's channel) received {[x['path'] for x in recs]}", me, asy, extra=extra)
+            if res_.get("exit_raised"):
+                # leaving `with client:` runs `self.transport.close()`; an RPC named `Transport` replaces the client's
+                # `transport` property by the RPC method (a naming collision: C12's subject, not part of this statement)
+                if any(m2["name"].lower() == "transport" for m2 in spec["methods"]):
+                    ctx.assume("no RPC is named `Transport` when the client is used as a context manager (its `transport` property is "
+                               "replaced by the RPC method; `__exit__` raises AttributeError after the call has completed)")
+                    ctx.count("excluded_points", "context-manager-exit:rpc-named-transport")
+                else:
+                    fail("context-manager:exit-raised", f"{fl} client {st['client']}: leaving the with-block raised {res_['exit_raised']}", me, asy, extra=extra)
             ret = observed_ret(codec, me, res_["ok"])
             want = expected_ret(me, st["replies"])
             if ret != want and not (want["kind"] == "none" and ret == {"kind": "stream", "items": [None] * len(st["replies"])}):
@@ -475,48 +595,58 @@ def run_api(ctx, r, spec, label, per_method=1, informational=None, multi_client=
     codec = rpc.Codec(files)
     import gapic.utils as gu
     # ---------------------------------------------------------------- T2 (generator-side functions vs model)
-    aliases = {}
-    for me in spec["methods"]:
-        m = svc.methods[me["name"]]
-        aliases[me["input"]["full"]] = m.input.ident.module_alias or ""
-        aliases[me["output"]["full"]] = m.output.ident.module_alias or ""
-    msvc, mnam = model_service(spec, aliases), model_naming(spec)
-    mo = ask(ctx, [{"op": "c03.service", "naming": mnam, "service": msvc}])[0]
-    if "methods" not in mo:
-        ctx.unsupported += 1
-        mo = {"methods": [None] * len(spec["methods"]), "construct": None}
-    for me, mm in zip(spec["methods"], mo["methods"]):
-        if mm is None:
-            continue
-        m = svc.methods[me["name"]]
-        ctx.traces += 1
+    def t2(sx, svx):
+        aliases = {}
+        for me in sx["methods"]:
+            m = svx.methods[me["name"]]
+            aliases[me["input"]["full"]] = m.input.ident.module_alias or ""
+            aliases[me["output"]["full"]] = m.output.ident.module_alias or ""
+        msvc, mnam = model_service(sx, aliases), model_naming(sx)
+        mo = ask(ctx, [{"op": "c03.service", "naming": mnam, "service": msvc}])[0]
+        if "methods" not in mo:
+            ctx.unsupported += 1
+            mo = {"methods": [None] * len(sx["methods"]), "construct": None}
+        for me, mm in zip(sx["methods"], mo["methods"]):
+            if mm is None:
+                continue
+            m = svx.methods[me["name"]]
+            ctx.traces += 1
 
-        def ainfo(t):
-            return {"proto": t.ident.proto, "is_proto_plus": bool(t.ident.is_proto_plus_type),
-                    "import_module": t.ident.python_import.module, "ident_module": str(t.ident).split(".")[0]}
-        co = m.client_output
-        real = {"kind": m.grpc_stub_type, "void": bool(m.void), "stub_key": gu.to_snake_case(m.transport_safe_name),
-                "client_attr": gu.to_snake_case(m.client_method_name),
-                "diff_package": m.input.ident.package != m.ident.package,
-                "input": ainfo(m.input), "output": ainfo(m.output)}
-        model = {k: mm[k] for k in ("kind", "void", "stub_key", "client_attr", "diff_package")}
-        model["input"] = {k: mm["input"][k] for k in real["input"]}
-        model["output"] = {k: mm["output"][k] for k in real["output"]}
-        if real != model:
-            diff = {k: (real[k], model[k]) for k in real if real[k] != model[k]}
-            ctx.disagree("T2:c03.method", f"{me['name']}: (impl, model) {diff}", dict(payload, method=me["name"]))
-        # `_client_output`: None for void, the output message otherwise (plain methods only)
-        co_kind = "none" if getattr(co, "ident", None) is not None and str(co.ident) == "None" else ("message" if co is m.output else "other")
-        if co_kind != ("none" if mm["void"] else "message"):
-            ctx.disagree("T2:c03.client_output", f"{me['name']}: _client_output is {co_kind}, model void={mm['void']}", dict(payload, method=me["name"]))
-        if m.client_output_async is not m.client_output and not (mm["void"] and str(m.client_output_async.ident) == "None"):
-            ctx.disagree("T2:c03.client_output_async", f"{me['name']}: async output differs", dict(payload, method=me["name"]))
-        # statement-level oracle on the generator side: arity and voidness as the proto declares them
-        want_kind = ("stream" if me["cs"] else "unary") + "_" + ("stream" if me["ss"] else "unary")
-        if m.grpc_stub_type != want_kind:
-            fail("arity", f"{me['name']}: grpc_stub_type {m.grpc_stub_type}, proto declares {want_kind}", me)
-        if bool(m.void) != (me["output"]["full"] == "google.protobuf.Empty"):
-            fail("void", f"{me['name']}: void={m.void} for output {me['output']['full']}", me)
+            def ainfo(t):
+                return {"proto": t.ident.proto, "is_proto_plus": bool(t.ident.is_proto_plus_type),
+                        "import_module": t.ident.python_import.module, "ident_module": str(t.ident).split(".")[0]}
+            co = m.client_output
+            real = {"kind": m.grpc_stub_type, "void": bool(m.void), "stub_key": gu.to_snake_case(m.transport_safe_name),
+                    "client_attr": gu.to_snake_case(m.client_method_name),
+                    "diff_package": m.input.ident.package != m.ident.package,
+                    "input": ainfo(m.input), "output": ainfo(m.output)}
+            model = {k: mm[k] for k in ("kind", "void", "stub_key", "client_attr", "diff_package")}
+            model["input"] = {k: mm["input"][k] for k in real["input"]}
+            model["output"] = {k: mm["output"][k] for k in real["output"]}
+            if real != model:
+                diff = {k: (real[k], model[k]) for k in real if real[k] != model[k]}
+                ctx.disagree("T2:c03.method", f"{me['name']}: (impl, model) {diff}", dict(payload, method=me["name"]))
+            # `_client_output`: None for void, the output message otherwise (plain methods only)
+            co_kind = "none" if getattr(co, "ident", None) is not None and str(co.ident) == "None" else ("message" if co is m.output else "other")
+            if co_kind != ("none" if mm["void"] else "message"):
+                ctx.disagree("T2:c03.client_output", f"{me['name']}: _client_output is {co_kind}, model void={mm['void']}", dict(payload, method=me["name"]))
+            if m.client_output_async is not m.client_output and not (mm["void"] and str(m.client_output_async.ident) == "None"):
+                ctx.disagree("T2:c03.client_output_async", f"{me['name']}: async output differs", dict(payload, method=me["name"]))
+            # statement-level oracle on the generator side: arity and voidness as the proto declares them
+            want_kind = ("stream" if me["cs"] else "unary") + "_" + ("stream" if me["ss"] else "unary")
+            if m.grpc_stub_type != want_kind:
+                fail("arity", f"{me['name']}: grpc_stub_type {m.grpc_stub_type}, proto declares {want_kind}", me)
+            if bool(m.void) != (me["output"]["full"] == "google.protobuf.Empty"):
+                fail("void", f"{me['name']}: void={m.void} for output {me['output']['full']}", me)
+        return mo, msvc, mnam
+    mo, msvc, mnam = t2(spec, svc)
+    svc2 = loc2 = spec2 = None
+    if spec.get("service2") and not informational:
+        spec2 = dict(spec, service=spec["service2"]["name"], methods=spec["service2"]["methods"])
+        svc2 = api.services[f"{PKG}.{spec2['service']}"]
+        loc2 = rpc.py_locations(api, svc2)
+        t2(spec2, svc2)
+        ctx.count("shape", "two-services")
     # ---------------------------------------------------------------- T3
     res, err = genrun.try_generate(req)
     if err:
@@ -551,7 +681,7 @@ def run_api(ctx, r, spec, label, per_method=1, informational=None, multi_client=
             break
         multi = None
         if multi_client and not informational:
-            mplan = plan_multi(r, spec, codec, svc)
+            mplan = plan_multi(r, spec, codec, svc, spec2, svc2, loc2)
             mops_ = [{"op": "grpc_multi_session", "client": loc["async_client" if asy else "client"],
                       "transport": loc["grpc_asyncio" if asy else "grpc"], "async": asy, "servers": ["A", "B"],
                       "steps": [copy.deepcopy(st["step"]) for st in mplan[asy]]} for asy in (False, True)]
@@ -620,7 +750,8 @@ def run_api(ctx, r, spec, label, per_method=1, informational=None, multi_client=
             ctx.case({"method": me["name"], "arity": want_kind, "mode": p["mode"], "flavor": fl, "input": in_full,
                       "output": me["output"]["full"]},
                      distinct_key=["call", canon(spec["methods"][p["mi"]]), p["mode"], fl, canon(p["requests"]), canon(p["replies"])])
-            ctx.count("arity", want_kind); ctx.count("request_mode", p["mode"]); ctx.count("flavor", fl)
+            ctx.count("arity", want_kind); ctx.count("request_mode", p["mode"] + (":positional" if p["call"].get("positional") else "")); ctx.count("flavor", fl)
+            ctx.count("stream_len", f"req{min(len(p['requests']), 4)}:rep{min(len(p['replies']), 4)}")
             ctx.count("request_type", me["input"]["kind"] + (":nested" if in_full.count(".") > 3 and me["input"]["kind"] == "local" else ""))
             ctx.count("response_type", "void" if me["output"]["full"].endswith(".Empty") and me["output"]["kind"] == "wkt" else me["output"]["kind"])
             ctx.count("name_class", "keyword" if me["name"] in KEYWORD_NAMES else "unsafe" if me["name"] in UNSAFE_NAMES else "plain")
@@ -654,6 +785,10 @@ def run_api(ctx, r, spec, label, per_method=1, informational=None, multi_client=
                         dropped = (asy and me["cs"] and me["output"]["full"] == "google.protobuf.Empty" and not unknown
                                    and sent == p["requests"][:len(sent)])      # the released call was cut short (same defect)
                         fail("payload" if not dropped else "call-count", f"{fl} {me['name']}({p['mode']}): server decoded {sent}, caller's request is {p['requests']}", me, asy, "call-count" if dropped else "payload", extra)
+                    # the caller's metadata travels with the call (the wrapped method is invoked with `metadata=metadata`)
+                    ctx.traces += 1
+                    if ["x-verif-call", p.get("tag")] not in [list(x) for x in rec["metadata"]]:
+                        ctx.disagree("T3:c03.metadata-passthrough", f"{fl} {me['name']}({p['mode']}): caller metadata x-verif-call={p.get('tag')} not among {[x for x in rec['metadata'] if x[0].startswith('x-')]}", dict(payload, **extra))
                 want_ret = expected_ret(me, p["replies"])
                 ok_ret = (ret == want_ret)
                 if void_stream and ret == {"kind": "stream", "items": [None] * len(p["replies"])}:
@@ -729,6 +864,8 @@ def _m(name, inp="Req", out="Book", cs=False, ss=False):
     def ref(x):
         if x.startswith("google.protobuf."):
             return {"kind": "wkt", "full": x}
+        if x.startswith("google.iam.v1."):
+            return {"kind": "iam", "full": x}
         if x.startswith(DEP_PKG + ".") or x.startswith("acme.lib.v1beta."):
             return {"kind": "dep", "full": x}
         return {"kind": "local", "full": f"{PKG}.{x}"}
@@ -754,6 +891,16 @@ def corpus_specs():
     out.append(("falsy_request_replaced", _base_spec([_m("Annotate", DEP_PKG + ".Note", "Book"), _m("Fetch", "Book", DEP_PKG + ".Note")],
                                                      dep=True, dep_as_library=True, options=f"proto-plus-deps={DEP_PKG}",
                                                      force_request={"method": "Annotate", "value": {"n": 0}}), None))
+    # deepening round: dependency-package (pb2) requests and responses in all forms, the same message both ways
+    I = "google.iam.v1."
+    out.append(("dependency_package_types", _base_spec(
+        [_m("GetPolicy", I + "GetIamPolicyRequest", I + "Policy"), _m("SetPolicy", I + "SetIamPolicyRequest", I + "Policy"),
+         _m("Ping", E, E), _m("Mask", "google.protobuf.FieldMask", "google.protobuf.FieldMask"), _m("Echo", "Book", "Book"),
+         _m("WatchPolicy", I + "TestIamPermissionsRequest", I + "Policy", False, True), _m("Feed", "google.protobuf.Struct", "Book", True, False)]), None))
+    # two services of one API, equal RPC names (one a keyword), clients sharing a channel
+    out.append(("two_services_shared_channel", _base_spec(
+        [_m("GetBook"), _m("Import"), _m("Watch", "Req", "Book", False, True)],
+        service2={"name": "Archive", "methods": [_m("GetBook", "Book", "Req"), _m("Import", "Req", "Book", False, True), _m("GrpcChannel")]}), None))
     # excluded points of `WF` that are NOT findings of this property (recorded as assumptions)
     out.append(("snake_collision", _base_spec([_m("GetBook"), _m("Get_book")]),
                 "RPC names of one service have pairwise distinct snake_case forms (WF.keys / WF.attrs; naming collisions are C12's subject)"))
